@@ -8,6 +8,8 @@ import (
 	"encoding/json"
 	"fmt"
 	"strings"
+
+	"verif/harness/rpckit"
 )
 
 type scase struct {
@@ -149,6 +151,7 @@ func buildCases(thorough bool) []scase {
 	add("initialize", "result-empty", `{}`)
 	add("initialize", "result-null", `null`)
 	cs = append(cs, numberCases(thorough)...)
+	cs = append(cs, stringCases()...)
 	// JSON-RPC errors, each code, on every method
 	for _, m := range []string{"tools/call", "tools/list", "prompts/list", "prompts/get", "resources/list", "resources/read", "initialize"} {
 		for _, e := range rpcErrors {
@@ -211,4 +214,30 @@ func answerFor(raw []byte) []byte {
 		return []byte(fmt.Sprintf(`{"jsonrpc":"2.0","id":%s,"error":%s}`, in.ID, c.Error))
 	}
 	return []byte(fmt.Sprintf(`{"jsonrpc":"2.0","id":%s,"result":%s}`, in.ID, c.resultText()))
+}
+
+// the rich string classes (rpckit.CtlText: every C0 control, DEL, C1, U+2028/9, bytes that are not UTF-8, non-printable
+// astral runes, quotes, backslashes, ANSI sequences; rpckit.PrintfText: printf material ending in a lone %) in every
+// string position of the results and in error messages
+func stringCases() []scase {
+	q := func(s string) string { b, _ := json.Marshal(s); return string(b) }
+	var cs []scase
+	for _, x := range []struct{ l, s string }{{"ctl", rpckit.CtlText}, {"printf", rpckit.PrintfText}, {"percent", "100%"}, {"both", rpckit.PrintfText + rpckit.CtlText + "%"}} {
+		t := q(x.s)
+		add := func(method, pos, result string) {
+			cs = append(cs, scase{Label: method + ":" + pos + ":" + x.l, Method: method, Key: pos + "-str-" + x.l, Result: result})
+		}
+		add("tools/call", "text", `{"content":[{"type":"text","text":`+t+`},{"type":"resource","resource":{"uri":`+t+`,"mimeType":`+t+`,"text":`+t+`}}],"structuredContent":{`+t+`:[`+t+`]},"_meta":{"k":`+t+`}}`)
+		add("tools/call", "is-error", `{"content":[{"type":"text","text":`+t+`}],"isError":true}`)
+		add("tools/list", "descriptors", `{"tools":[{"name":`+t+`,"description":`+t+`,"inputSchema":{"type":"object","properties":{"x":{"type":"string","description":`+t+`,"default":`+t+`,"enum":[`+t+`]}}},"annotations":{"title":`+t+`}}],"nextCursor":`+t+`}`)
+		add("prompts/list", "descriptors", `{"prompts":[{"name":`+t+`,"description":`+t+`,"arguments":[{"name":`+t+`,"description":`+t+`}]}]}`)
+		add("prompts/get", "messages", `{"description":`+t+`,"messages":[{"role":"user","content":{"type":"text","text":`+t+`}}]}`)
+		add("resources/list", "descriptors", `{"resources":[{"name":`+t+`,"uri":`+t+`,"description":`+t+`,"mimeType":`+t+`}]}`)
+		add("resources/read", "contents", `{"contents":[{"uri":`+t+`,"mimeType":`+t+`,"text":`+t+`}]}`)
+		add("initialize", "info", `{"protocolVersion":"2025-03-26","capabilities":{"experimental":{`+t+`:{"k":`+t+`}}},"serverInfo":{"name":`+t+`,"version":`+t+`},"instructions":`+t+`}`)
+		for _, m := range []string{"tools/call", "tools/list", "prompts/get", "resources/read", "initialize"} {
+			cs = append(cs, scase{Label: m + ":error-text:" + x.l, Method: m, Key: "error-str-" + x.l, Error: `{"code":-32603,"message":` + t + `,"data":{"detail":` + t + `}}`})
+		}
+	}
+	return cs
 }
